@@ -25,7 +25,9 @@ def run(ctx):
           sims.append((st, bound, 0, ctx.pick(25, 200), 18))
         r_ops, w_ops = cachesys.gen_workload(ctx.rng, nmetrics=3, nts=2, nstores=min(8, mx + 4), ndrains=ctx.pick(2, 3),
                                              nqueries=0, ticks=(st == 'timesorted'))
-        cfg = dict(strategy=st, max=mx, flow=flow, lag=0)
+        cfg = dict(strategy=st, max=mx, flow=flow, lag=0, frac=(len(expl) % 2 == 1))      # every other: sub-second float timestamps
+        if len(expl) % 3 == 2:
+          cfg['via'] = 'processor'      # through CacheFeedingProcessor, one tagged series under several spellings
         expl.append((cfg, r_ops, w_ops, ctx.pick(1, 2), ctx.pick(30, 100), ctx.pick(120, 800)))
   # the band between the soft and the hard limit only exists for MAX_CACHE_SIZE >= 20 (floor(1.05 * MAX) > MAX):
   # operation-granularity schedules of a 25-store workload against MAX_CACHE_SIZE = 20 with flow control
